@@ -258,7 +258,10 @@ def judge(ctx, case, stream, opts, scripting, label):
                         a = w3[k2]
                         if (w3[k2 + 1][0].startswith("=") and a[1] == "" and (a[0] in BOOL_TABLE.get(e[5], ()) or a[0] in BOOL_TABLE[""])
                                 and got_attrs[:k2] == w3[:k2] and len(got_attrs) > k2 and got_attrs[k2][0] == a[0]
-                                and got_attrs[k2][1].startswith(w3[k2 + 1][0][1:])):
+                                and (got_attrs[k2][1].startswith(w3[k2 + 1][0][1:])
+                                     # the character after '=' is a quote: it opens a quoted value instead
+                                     or (w3[k2 + 1][0][1:2] in ('"', "'")
+                                         and got_attrs[k2][1].startswith((w3[k2 + 1][0][2:] + "=").split(w3[k2 + 1][0][1])[0])))):
                             w3 = got_attrs
                             used.append("equals-named-attribute-after-minimised-attribute")
                             break
@@ -383,7 +386,9 @@ OPTS = {
     "encoding": [None, None, None, "utf-8", "ascii", "koi8-r"],
 }
 
-LEX = ["<", ">", "&", "\"", "'", "=", "`", " ", "\t", "\n", "&amp;", "&lt;", "</", "<!--", "-->", "]]>", "<![CDATA[", "</script", "</style", "</title", "</textarea", "<script", "\x00", "é", "\U0001F600", "/", "-", "--", "\\"]
+LEX = ["<", ">", "&", "\"", "'", "=", "`", " ", "\t", "\n", "&amp;", "&lt;", "</", "<!--", "-->", "]]>", "<![CDATA[", "</script", "</style", "</title", "</textarea", "<script", "\x00", "é", "\U0001F600", "/", "-", "--", "\\",
+       # pieces that make character-reference look-alikes once an ampersand precedes them (text and attribute values)
+       "#", "#x", "#60;", "#x3c;", "#62", "#x3E", "#0;", "lt;", "lt", "gt;", "amp;", "quot;", "notit;", "not", ";", "0", "1", "&#", "&lt", "&#x"]
 
 
 def lexical_input(rng):
